@@ -76,7 +76,7 @@ void regMorphFull() {
 }
 
 void registerMorph() {
-#ifdef C11_FULL
+#if 0 // full matrix: see c11_x_*.cpp
   regMorphFull<void>();
   regMorphFull<uint32_t>();
   regMorphFull<uint64_t>();
